@@ -102,6 +102,18 @@ def run(ctx: Ctx):
                     ctx.fail(f"get_slice({c!r}) does not select column {names.index(c)}", rp)
         cols = [f"({cstr(c)}, {copt(ms.column_indices.get(c), lambda v: str(v) + '%nat')})" for c in names + ["nope"]]
         vlit = []
+        # independently of term_variables: a data column is a variable of exactly the terms whose factor expressions mention it
+        import re as _re
+        for col in df.columns:
+            uses = [t for t in ms.terms if any(_re.search(r"(?<![\w.])" + _re.escape(col) + r"(?![\w(])", fc.expr) for fc in t.factors)]
+            want_ix = sorted({k for t in uses for k in ms.term_indices[t]})
+            got_ix = list(ms.variable_indices.get(col, []))
+            if got_ix != want_ix:
+                ctx.fail(f"variable_indices[{col!r}] = {got_ix}; the terms mentioning {col!r} ({[repr(t) for t in uses]}) occupy columns {want_ix}", rp)
+            for t in ms.terms:
+                has = col in {str(x) for x in ms.term_variables[t]}
+                if has != (t in uses):
+                    ctx.fail(f"term_variables[{t!r}] {'contains' if has else 'lacks'} {col!r}", rp)
         for v, ix in ms.variable_indices.items():
             want = sorted({k for t in ms.terms if str(v) in {str(x) for x in ms.term_variables[t]} for k in ms.term_indices[t]})
             if list(ix) != want:
